@@ -47,6 +47,12 @@ def check_sympd():
     c1 = pd.concat([R, pd.DataFrame({'N': list(range(8))})], axis=1)
     c2 = sympd.concat([M, sympd.DataFrame({'N': list(range(8))})], axis=1)
     same('concat axis=1', (list(c1.columns), c1.values.tolist()), (list(c2.columns), [list(r) for r in c2.rows]))
+    e1 = pd.concat([R[['A']], pd.DataFrame({})], axis=1)
+    e2 = sympd.concat([M[['A']], sympd.DataFrame({})], axis=1)
+    same('concat with an empty frame', (list(e1.columns), e1.values.tolist()), (list(e2.columns), [list(r) for r in e2.rows]))
+    i1 = pd.concat([R[['A']], pd.DataFrame({})], axis=1, join='inner')
+    i2 = sympd.concat([M[['A']], sympd.DataFrame({})], axis=1, join='inner')
+    same('inner concat with an empty frame', (list(i1.columns), i1.shape[0]), (list(i2.columns), len(i2.rows)))
     same('iterrows', [(r['A'], r['S']) for _, r in R.iterrows()], [(r['A'], r['S']) for _, r in M.iterrows()])
     same('bool index', R[R['A'].str.contains('a')].values.tolist(), [list(r) for r in M[M['A'].str.contains('a')].rows])
     same('empty', (pd.DataFrame([], columns=cols).empty, R.empty), (sympd.DataFrame([], columns=cols).empty, M.empty))
@@ -55,7 +61,7 @@ def check_sympd():
     same('median even/odd', (float(pd.Series([3.0, 1.0, 2.0, 10.0]).median()), float(pd.Series([3.0, 1.0, 2.0]).median())), (sympd.median([3.0, 1.0, 2.0, 10.0]), sympd.median([3.0, 1.0, 2.0])))
     if probs:
         raise HarnessError('sympd disagrees with pandas: ' + '; '.join(probs[:4]))
-    return 24
+    return 26
 
 
 def check_xnp():
